@@ -62,6 +62,13 @@ type world struct {
 	junk    map[string]int
 	extraPk map[string]int // raw public keys outside k0..k3 -> atom
 	calls   int
+	longCtxs   [][]byte
+	longBodies [][]byte
+	prevMsg    *peer.SignedMsg
+	prevCtx    []byte
+	ruData, ruSig, ruPub, ruWire, ruVData, ruVSig reuseBuf
+	prevWire   []byte
+	prevVData, prevVSig []byte
 }
 
 func newWorld(c *hx.Ctx) *world {
@@ -89,16 +96,86 @@ func newWorld(c *hx.Ctx) *world {
 		[]byte("ctx A - SIGN - 1"), []byte("x - SIGN - 3 - SIGN - "), {0, 255}}
 	w.bodies = [][]byte{[]byte("b"), []byte("body one"), []byte("body one."), {0}, c.RandBytes(40),
 		[]byte("1 - SIGN - body"), c.RandBytes(3)}
+	// whitespace neighbours of "ctx A"
+	w.ctxs = append(w.ctxs, []byte(" ctx A"), []byte("\tctx A"), []byte("ctx A\n"))
+	// long contexts in every size class, each with a neighbour that differs only in the last
+	// byte; beyond 256 bytes also one that differs only at offset 300
+	for _, n := range pickSizes(c, []int{204, 235, 246, 257, 512}, 3) {
+		if n < 63 {
+			continue
+		}
+		b := patterned(n, 1)
+		w.longCtxs = append(w.longCtxs, b, tailVariant(b))
+		if n > 300 {
+			v := clone(b)
+			v[300] ^= 0x20
+			w.longCtxs = append(w.longCtxs, v)
+		}
+	}
+	for _, n := range pickSizes(c, []int{64, 257}, 2) {
+		if n == 0 {
+			continue
+		}
+		b := patterned(n, 5)
+		w.longBodies = append(w.longBodies, b, tailVariant(b))
+	}
 	w.hts = []hash.HashType{hash.HashType_HashType_SHA256, hash.HashType_HashType_SHA1, hash.HashType_HashType_BLAKE3}
 	// unsupported values incl. ones that equal a supported value after truncation to 8 / 16 / 24 bits or sign loss
 	w.badHts = []hash.HashType{0, 4, 99, -1, 1 << 20, 257, 258, 259, 65537, 1<<24 | 3, -255, -2147483647, 2147483647, 256}
 	return w
 }
 
+// pickCtx: a short context, or (30%) a long one from the size classes
+func (w *world) pickCtx() []byte {
+	r := w.c.Rng
+	if len(w.longCtxs) > 0 && r.Intn(10) < 3 {
+		return w.longCtxs[r.Intn(len(w.longCtxs))]
+	}
+	return w.ctxs[r.Intn(len(w.ctxs))]
+}
+
+func (w *world) pickBody() []byte {
+	r := w.c.Rng
+	if len(w.longBodies) > 0 && r.Intn(8) == 0 {
+		return w.longBodies[r.Intn(len(w.longBodies))]
+	}
+	return w.bodies[r.Intn(len(w.bodies))]
+}
+
 func (w *world) randTuple() tuple {
 	r := w.c.Rng
-	return tuple{r.Intn(len(w.privs)), w.ctxs[r.Intn(len(w.ctxs))], w.hts[r.Intn(len(w.hts))], w.bodies[r.Intn(len(w.bodies))]}
+	return tuple{r.Intn(len(w.privs)), w.pickCtx(), w.hts[r.Intn(len(w.hts))], w.pickBody()}
 }
+
+// independentPub parses a marshalled crypto.PublicKey WITHOUT the key
+// unmarshallers under test: Ed25519 type and exactly 32 bytes of key data.
+func independentPub(b []byte) ([]byte, bool) {
+	pm := &crypto.PublicKey{}
+	if err := pm.UnmarshalVT(b); err != nil {
+		return nil, false
+	}
+	if pm.GetKeyType() != crypto.KeyType_Ed25519 || len(pm.GetData()) != ed25519.PublicKeySize {
+		return nil, false
+	}
+	return pm.GetData(), true
+}
+
+// embeddedKey marshals a PublicKey message whose key data has rawLen bytes
+// (prefix of key k, or key k followed by more bytes).
+func (w *world) embeddedKey(k, rawLen int) []byte {
+	raw := append(clone(w.raws[k]), w.raws[(k+1)%len(w.raws)]...)
+	raw = append(raw, raw...)
+	b, err := (&crypto.PublicKey{KeyType: crypto.KeyType_Ed25519, Data: raw[:rawLen]}).MarshalVT()
+	if err != nil {
+		panic(err)
+	}
+	if rawLen == 0 && w.c.Rng.Intn(2) == 0 {
+		b = []byte{0x08, byte(crypto.KeyType_Ed25519)} // key_type only, no data field at all
+	}
+	return b
+}
+
+var embeddedKeyLens = []int{0, 1, 2, 5, 8, 15, 16, 17, 24, 30, 31, 32, 33, 64}
 
 // sign makes the honest signature for t and records its bytes.
 func (w *world) sign(t tuple, incl bool) *peer.Signature {
@@ -152,11 +229,10 @@ func (w *world) pubTerm(b []byte) string {
 	if len(b) == 0 {
 		return "PubNone"
 	}
-	pk, err := crypto.UnmarshalPublicKey(b)
-	if err != nil {
+	raw, ok := independentPub(b)
+	if !ok {
 		return "PubBad"
 	}
-	raw, _ := pk.Raw()
 	return hx.App("PubOf", hx.Nat(w.keyAtom(raw)))
 }
 
@@ -173,6 +249,9 @@ func (w *world) senderTerm(s string) string {
 		return "SenderBadKey"
 	}
 	raw, _ := pk.Raw()
+	if len(raw) != ed25519.PublicKeySize {
+		return "SenderBadKey"
+	}
 	return hx.App("SenderOf", hx.Nat(w.keyAtom(raw)))
 }
 
@@ -264,6 +343,31 @@ func (w *world) extractAndVerify(m *peer.SignedMsg, ctx []byte) evRes {
 			}
 		}
 	}
+	// recycled buffers: the previous message is verified from one set of backing
+	// arrays, the arrays are overwritten with THIS message, and the result must be
+	// the one obtained from fresh buffers (r)
+	if w.calls%2 == 1 && r.cls != 99 && w.prevMsg != nil {
+		build := func(src *peer.SignedMsg) *peer.SignedMsg {
+			o := &peer.SignedMsg{FromPeerId: src.FromPeerId, Data: w.ruData.load(src.Data)}
+			if src.Signature != nil {
+				o.Signature = &peer.Signature{HashType: src.Signature.HashType, PubKey: w.ruPub.load(src.Signature.PubKey), SigData: w.ruSig.load(src.Signature.SigData)}
+			}
+			return o
+		}
+		w.extractAndVerify1(build(w.prevMsg), w.prevCtx)
+		if w.calls%4 == 1 {
+			w.ruData.zero()
+			w.ruSig.zero()
+			w.ruPub.zero()
+		}
+		r4 := w.extractAndVerify1(build(before), ctx)
+		w.c.Eval()
+		w.c.Eval()
+		if r4.cls != r.cls || r4.key != r.key || r4.id != r.id {
+			w.c.Failf("c01-buffer-reuse-differs", d, "verifying this message from buffers that held a different message before gave class %d key %d, from fresh buffers class %d key %d", r4.cls, r4.key, r.cls, r.key)
+		}
+	}
+	w.prevMsg, w.prevCtx = before, clone(ctx)
 	return r
 }
 
@@ -418,7 +522,7 @@ func tampers() []tamper {
 	return []tamper{
 		{"context-other", func(w *world, t tuple, m *peer.SignedMsg, ctx *[]byte) bool {
 			for {
-				x := w.ctxs[w.c.Rng.Intn(len(w.ctxs))]
+				x := w.pickCtx()
 				if !bytes.Equal(x, t.ctx) {
 					*ctx = x
 					return true
@@ -434,9 +538,44 @@ func tampers() []tamper {
 			*ctx = append(clone(t.ctx), []byte(fmt.Sprintf(" - SIGN - %d", int32(t.ht)))...)
 			return true
 		}},
+		{"context-tail-changed", func(w *world, t tuple, m *peer.SignedMsg, ctx *[]byte) bool {
+			*ctx = tailVariant(t.ctx)
+			return true
+		}},
+		{"context-truncated-by-one", func(w *world, t tuple, m *peer.SignedMsg, ctx *[]byte) bool {
+			if len(t.ctx) == 0 {
+				*ctx = []byte{' '}
+			} else {
+				*ctx = clone(t.ctx[:len(t.ctx)-1])
+			}
+			return true
+		}},
+		{"context-whitespace", func(w *world, t tuple, m *peer.SignedMsg, ctx *[]byte) bool {
+			ws := []string{" ", "\t", "\n", "\x00"}[w.c.Rng.Intn(4)]
+			if w.c.Rng.Intn(2) == 0 {
+				*ctx = append([]byte(ws), t.ctx...)
+			} else {
+				*ctx = append(clone(t.ctx), ws...)
+			}
+			return true
+		}},
+		{"body-tail-changed", func(w *world, t tuple, m *peer.SignedMsg, ctx *[]byte) bool {
+			m.Data = tailVariant(t.data)
+			return true
+		}},
+		{"signature-resized", func(w *world, t tuple, m *peer.SignedMsg, ctx *[]byte) bool {
+			n := sizeClasses[w.c.Rng.Intn(len(sizeClasses))]
+			if n == len(m.Signature.SigData) {
+				n++
+			}
+			o := make([]byte, n)
+			copy(o, m.Signature.SigData)
+			m.Signature.SigData = o
+			return true
+		}},
 		{"body-other", func(w *world, t tuple, m *peer.SignedMsg, ctx *[]byte) bool {
 			for {
-				x := w.bodies[w.c.Rng.Intn(len(w.bodies))]
+				x := w.pickBody()
 				if !bytes.Equal(x, t.data) {
 					m.Data = clone(x)
 					return true
@@ -532,7 +671,7 @@ func tampers() []tamper {
 				u.k = otherOf(w, len(w.privs), t.k)
 			case 1:
 				for bytes.Equal(u.ctx, t.ctx) {
-					u.ctx = w.ctxs[w.c.Rng.Intn(len(w.ctxs))]
+					u.ctx = w.pickCtx()
 				}
 			case 2:
 				for u.ht == t.ht {
@@ -540,7 +679,7 @@ func tampers() []tamper {
 				}
 			default:
 				for bytes.Equal(u.data, t.data) {
-					u.data = w.bodies[w.c.Rng.Intn(len(w.bodies))]
+					u.data = w.pickBody()
 				}
 			}
 			m.Signature.SigData = clone(w.sign(u, false).GetSigData())
@@ -586,6 +725,10 @@ func (w *world) varyPubField(m *peer.SignedMsg, t tuple) string {
 	case 2:
 		m.Signature.PubKey = []byte{0xff, 0x01, 0x02}
 		return "+pub_key=unparsable"
+	case 3:
+		n := embeddedKeyLens[w.c.Rng.Intn(len(embeddedKeyLens))]
+		m.Signature.PubKey = w.embeddedKey(t.k, n)
+		return fmt.Sprintf("+pub_key=embedded-key-of-%d-bytes", n)
 	}
 	return ""
 }
@@ -776,6 +919,19 @@ func c01(c *hx.Ctx, w *world) {
 				c.Failf("c01-argument-modified", map[string]any{"kind": "UnmarshalSignedMsg", "wire_hex": hx.Hex(wireBefore)}, "UnmarshalSignedMsg wrote to its input buffer or beyond its length")
 			}
 		}
+		if !panicked && w.prevWire != nil {
+			// recycled read buffer: previous wire bytes, then these, from the same backing array
+			hx.Catch(func() { _, _ = peer.UnmarshalSignedMsg(w.ruWire.load(w.prevWire)) })
+			var dm3 *peer.SignedMsg
+			var derr3 error
+			p3, _ := hx.Catch(func() { dm3, derr3 = peer.UnmarshalSignedMsg(w.ruWire.load(wireBefore)) })
+			c.Eval()
+			c.Eval()
+			if p3 || (derr == nil) != (derr3 == nil) || (derr == nil && !sameMsg(dm, dm3)) {
+				c.Failf("c01-buffer-reuse-differs", map[string]any{"kind": "UnmarshalSignedMsg", "wire_hex": hx.Hex(wireBefore), "previous_wire_hex": hx.Hex(w.prevWire)}, "decoding these bytes from a buffer that held other bytes before gave a different result than from a fresh buffer")
+			}
+		}
+		w.prevWire = wireBefore
 		if panicked {
 			desc := map[string]any{"kind": "UnmarshalSignedMsg", "how": how, "wire_hex": hx.Hex(wire)}
 			c.Case(hx.App("WireRaw", hx.Bytes(wire), hx.Bytes(ctx), "SenderEmpty", "PubNone", "SigNone", hx.Nat(99), hx.Nat(0), "None"), desc)
@@ -820,6 +976,8 @@ func c02(c *hx.Ctx, w *world) {
 	nVal := c.N / 5
 	nVer := c.N - nNew - nVal
 	// NewSignature
+	var ruNew reuseBuf
+	var prevNewData []byte
 	for i := 0; i < nNew; i++ {
 		t := w.randTuple()
 		if c.Rng.Intn(3) == 0 {
@@ -846,7 +1004,21 @@ func c02(c *hx.Ctx, w *world) {
 			if !intact(dwhole, t.data) {
 				c.Failf("c02-argument-modified", map[string]any{"kind": "NewSignature", "tuple": t.String()}, "NewSignature modified its data argument or wrote beyond it (second call)")
 			}
-			if err2 != nil || err3 != nil || !bytes.Equal(s2.GetSigData(), s.GetSigData()) || !bytes.Equal(s2.GetPubKey(), s.GetPubKey()) || !bytes.Equal(s3.GetSigData(), s.GetSigData()) {
+			if prevNewData != nil {
+				// recycled data buffer: the previous data, then this data, from the same backing array
+				_, _ = peer.NewSignature(string(t.ctx), w.privs[t.k], t.ht, ruNew.load(prevNewData), incl)
+				s4, err4 := peer.NewSignature(string(t.ctx), w.privs[t.k], t.ht, ruNew.load(t.data), incl)
+				c.Eval()
+				c.Eval()
+				if err4 != nil || !bytes.Equal(s4.GetSigData(), s.GetSigData()) {
+					c.Failf("c02-buffer-reuse-differs", map[string]any{"kind": "NewSignature", "tuple": t.String()}, "signing data from a buffer that held other data before gave a different signature than from a fresh buffer")
+				}
+			}
+			prevNewData = clone(t.data)
+			if prevNewData == nil {
+				prevNewData = []byte{}
+			}
+						if err2 != nil || err3 != nil || !bytes.Equal(s2.GetSigData(), s.GetSigData()) || !bytes.Equal(s2.GetPubKey(), s.GetPubKey()) || !bytes.Equal(s3.GetSigData(), s.GetSigData()) {
 				c.Failf("c02-repeated-call-differs", map[string]any{"kind": "NewSignature", "tuple": t.String()}, "two NewSignature calls with identical inputs produced different signature objects")
 			}
 		}
@@ -905,7 +1077,7 @@ func c02(c *hx.Ctx, w *world) {
 				v.k = (v.k + 1 + c.Rng.Intn(len(w.privs)-1)) % len(w.privs)
 				how += "+key"
 			case 1:
-				v.ctx = w.ctxs[c.Rng.Intn(len(w.ctxs))]
+				v.ctx = w.pickCtx()
 				how += "+context"
 			case 2:
 				s.HashType = w.hts[c.Rng.Intn(len(w.hts))]
@@ -914,7 +1086,7 @@ func c02(c *hx.Ctx, w *world) {
 				s.HashType = w.badHts[c.Rng.Intn(len(w.badHts))]
 				how += "+hashtype-unsupported"
 			case 4:
-				v.data = w.bodies[c.Rng.Intn(len(w.bodies))]
+				v.data = w.pickBody()
 				how += "+data"
 			case 5:
 				u := w.randTuple()
@@ -978,6 +1150,28 @@ func c02(c *hx.Ctx, w *world) {
 			if !intact(dwhole, v.data) || !intact(swhole, sBefore.SigData) {
 				c.Failf("c02-argument-modified", argd, "VerifyWithPublic wrote to an argument buffer or beyond its length")
 			}
+		}
+		if !panicked && i%2 == 1 && w.prevVSig != nil {
+			// recycled buffers: the previous (data, signature) then this one from the same backing arrays
+			sp := &peer.Signature{PubKey: clone(sBefore.PubKey), HashType: sBefore.HashType, SigData: w.ruVSig.load(w.prevVSig)}
+			hx.Catch(func() { _, _ = sp.VerifyWithPublic(string(v.ctx), w.pubs[v.k], w.ruVData.load(w.prevVData)) })
+			if i%4 == 1 {
+				w.ruVData.zero()
+				w.ruVSig.zero()
+			}
+			sp.SigData = w.ruVSig.load(sBefore.SigData)
+			var ok3 bool
+			var err3 error
+			p3, _ := hx.Catch(func() { ok3, err3 = sp.VerifyWithPublic(string(v.ctx), w.pubs[v.k], w.ruVData.load(v.data)) })
+			c.Eval()
+			c.Eval()
+			if p3 || ok3 != ok || (err3 == nil) != (err == nil) {
+				c.Failf("c02-buffer-reuse-differs", argd, "VerifyWithPublic on buffers that held another data/signature before gave ok=%v err=%v, on fresh buffers ok=%v err=%v", ok3, err3, ok, err)
+			}
+		}
+		w.prevVData, w.prevVSig = clone(v.data), clone(sBefore.SigData)
+		if w.prevVData == nil {
+			w.prevVData = []byte{}
 		}
 		obs := 0
 		switch {
@@ -1045,7 +1239,8 @@ func c02(c *hx.Ctx, w *world) {
 		case 3:
 			s.PubKey = c.RandBytes(1 + c.Rng.Intn(40))
 		default:
-			s.PubKey = []byte{0x08, 0x01, 0x12, 0x02, 1, 2} // Ed25519 key of the wrong size
+			// embedded Ed25519 keys of every length 0..33 and 64
+			s.PubKey = w.embeddedKey(c.Rng.Intn(len(w.raws)), embeddedKeyLens[c.Rng.Intn(len(embeddedKeyLens))])
 		}
 		var err error
 		var sp *peer.Signature = s
@@ -1102,8 +1297,26 @@ func c02(c *hx.Ctx, w *world) {
 		}
 		// property text: unknown (out of range) hash types, empty signature bytes, unparsable embedded keys are rejected
 		inRange := s.HashType >= 0 && int(s.HashType) <= 3
-		_, perr := crypto.UnmarshalPublicKey(s.PubKey)
-		pubBad := len(s.PubKey) != 0 && perr != nil
+		// independent of the unmarshallers under test: an embedded key must be a 32-byte Ed25519 key
+		indRaw, indOK := independentPub(s.PubKey)
+		pubBad := len(s.PubKey) != 0 && !indOK
+		if len(s.PubKey) != 0 {
+			var ppk crypto.PubKey
+			var pperr error
+			pp, _ := hx.Catch(func() { ppk, pperr = (&peer.Signature{PubKey: clone(s.PubKey)}).ParsePubKey() })
+			c.Eval()
+			if pp {
+				c.Failf("c02-validate-panic", desc, "ParsePubKey panicked")
+			} else if pperr == nil && !indOK {
+				c.Failf("c02-malformed-embedded-key-parsed", desc, "ParsePubKey accepted pub_key %x, which is not a 32-byte Ed25519 key", s.PubKey)
+			} else if pperr == nil {
+				if raw, _ := ppk.Raw(); !bytes.Equal(raw, indRaw) {
+					c.Failf("c02-malformed-embedded-key-parsed", desc, "ParsePubKey returned a key different from the embedded bytes")
+				}
+			} else if indOK {
+				c.Failf("c02-validate-rejects-valid", desc, "ParsePubKey rejected a well-formed embedded key: %v", pperr)
+			}
+		}
 		if err == nil && (!inRange || len(s.SigData) == 0 || pubBad) {
 			c.Failf("c02-validate-accepts-invalid", desc, "Validate accepted hash type %d, %d signature bytes, unparsable pub_key=%v", int32(s.HashType), len(s.SigData), pubBad)
 		}
